@@ -21,6 +21,178 @@ theorem finish_plain {C Q : Type} {A : QAction Q} {Mc : Sem (C × Q)} {ex : List
       ∀ r, (∀ s0, getUnused used = .ok s0 → r ≠ s0) → u'.regs r = u.regs r :=
   ⟨_, hrun, by rw [hs', hmem], fun _ _ => rfl⟩
 
+theorem movExec_some {C Q : Type} {A : QAction Q} {g : Instr} {s s' : St (C × Q)}
+    (h : movExec A g s = some s') :
+    ∃ r0 r1 a b q', g.ops = [.reg r0, .reg r1] ∧ readQ s.regs r0 = some a ∧ readQ s.regs r1 = some b ∧
+      a ≠ b ∧ ((a = 0 ∧ A.transfer (movPhi true) a b s.mem.2 = some q') ∨
+               (a ≠ 0 ∧ b = 0 ∧ A.transfer (movPhi false) a b s.mem.2 = some q')) ∧
+      s' = ⟨s.regs, (s.mem.1, q')⟩ := by
+  unfold movExec at h
+  split at h
+  · rename_i r0 r1 hops
+    split at h
+    · rename_i a b ha hb
+      split at h
+      · cases h
+      · rename_i hne
+        split at h
+        · rename_i ha0
+          obtain ⟨q', hq, hs⟩ := Option.map_eq_some_iff.1 h
+          exact ⟨r0, r1, a, b, q', hops, ha, hb, hne, Or.inl ⟨ha0, hq⟩, hs.symm⟩
+        · rename_i ha0
+          split at h
+          · rename_i hb0
+            obtain ⟨q', hq, hs⟩ := Option.map_eq_some_iff.1 h
+            exact ⟨r0, r1, a, b, q', hops, ha, hb, hne, Or.inr ⟨ha0, hb0, hq⟩, hs.symm⟩
+          · cases h
+    · cases h
+  · cases h
+
+/-- `ExpandSound`, the `mov` case: whichever template the pass picks (electron→carbon for known ids
+or unknown registers, carbon→electron for known ids), it performs the transfer the vanilla `mov`
+performs, wherever that is defined (target in |0⟩) -/
+theorem expandSound_mov {C Q : Type} (A : QAction Q) (hA : QLawful A) (Mc : Sem (C × Q)) (cfg : Cfg)
+    (hTies : AllTies cfg = true) (hC : ClsTie cfg = true)
+    (g : Instr) (info : ClsInfo) (rv : List (Reg × Int)) (used : List Reg) (ex : List Instr)
+    (s u s' : St (C × Q)) (hi : infoOf cfg g.cls = some info) (hg : infoGate info = true)
+    (hex : expandInstr cfg info rv used g = .ok ex)
+    (hknow : ∀ r ∈ topRegs g, ∀ v, rv.lookup r = some v → s.regs r = some v)
+    (hall : info.gate2 = true → (∀ r ∈ topRegs g, (rv.lookup r).isSome = true) ∨
+      (info.tag = "mov" ∧ ∃ r0 rest, g.ops = .reg r0 :: rest ∧ s.regs r0 = some 0))
+    (hmem : s.mem = u.mem) (hregs : ∀ r ∈ topRegs g, s.regs r = u.regs r)
+    (he : (MQ A Mc).exec g s = some s') (hm : g.cls = movCls) :
+    ∃ u', RunStraight (MQ A Mc) (serialise ex) u u' ∧ s'.mem = u'.mem ∧
+      ∀ r, (∀ s0, getUnused used = .ok s0 → r ≠ s0) → u'.regs r = u.regs r := by
+  obtain ⟨hmemI, hcls⟩ := infoOf_cls hi
+  have hC' := hC
+  unfold ClsTie at hC'
+  simp only [Bool.and_eq_true] at hC'
+  have hct := List.all_eq_true.1 hC'.1 info hmemI
+  simp only [Bool.and_eq_true, Bool.or_eq_true, Bool.not_eq_eq_eq_not, Bool.not_true, beq_iff_eq, hcls] at hct
+  obtain ⟨⟨⟨⟨_, _⟩, _⟩, c4⟩, c5⟩ := hct
+  have hnone : gnameOf g.cls = none := by rw [hm]; exact fixedSingles_gname.2.2.1
+  -- class facts of `mov`
+  have hg1 : info.gate1 = false := by
+    rcases c4 with (c4 | c4) | c4
+    · exact c4
+    · obtain ⟨e, hefix, hecls⟩ := List.any_eq_true.1 c4
+      have h1 := List.all_eq_true.1 fixedSingles_gname.1 e hefix
+      have : e.1 = movCls := by rw [← hm]; simpa using hecls
+      simp [this] at h1
+    · obtain ⟨e, herot, hecls⟩ := List.any_eq_true.1 c4
+      have h1 := List.all_eq_true.1 fixedSingles_gname.2.1 e herot
+      have : e.1 = movCls := by rw [← hm]; simpa using hecls
+      simp [this] at h1
+  have hg2 : info.gate2 = true := by unfold infoGate at hg; simpa [hg1] using hg
+  have htag : info.tag = "mov" := by
+    rcases c5 with ((c5 | c5) | c5) | c5
+    · rw [hg2] at c5; cases c5
+    · rw [hnone] at c5; cases c5.2
+    · rw [hnone] at c5; cases c5.2
+    · exact c5.1
+  have hTies' := hTies
+  unfold AllTies at hTies'
+  simp only [Bool.and_eq_true] at hTies'
+  obtain ⟨⟨_, tEC⟩, tCE⟩ := hTies'
+  -- the vanilla step
+  have he' : movExec A g s = some s' := by simpa [MQ, hm] using he
+  obtain ⟨r0, r1, i0, i1, q', hops, hq0, hq1, hne, hdir, hs'⟩ := movExec_some he'
+  have hr0 : r0 ∈ topRegs g := by simp [topRegs, hops, opReg?]
+  have hr1 : r1 ∈ topRegs g := by simp [topRegs, hops, opReg?]
+  have hq0' : readQ u.regs r0 = some i0 := by simp only [readQ, ← hregs r0 hr0]; exact hq0
+  have hq1' : readQ u.regs r1 = some i1 := by simp only [readQ, ← hregs r1 hr1]; exact hq1
+  have hinj01 : ∀ (x y : Nat), x ≠ y → ∀ i j, i < 2 → j < 2 →
+      (fun k => if k = 0 then x else y) i = (fun k => if k = 0 then x else y) j → i = j := by
+    intro x y hxy i j hi' hj' e
+    by_cases hi0 : i = 0 <;> by_cases hj0 : j = 0 <;> simp [hi0, hj0] at e <;> omega
+  have hlt : ∀ (rm : TOp → Option Nat), (rm = rmEC ∨ rm = rmCE) → ∀ top k, rm top = some k → k < 2 := by
+    intro rm hrm top k hk
+    rcases hrm with rfl | rfl <;> cases top <;> simp [rmEC, rmCE] at hk <;> omega
+  -- electron → carbon, shared by the known and the unknown path
+  have caseEC : i0 = 0 → useTemplate cfg ("mov_ec" ++ sfx cfg) g r0 r1 r0 = .ok ex →
+      ∃ u', RunStraight (MQ A Mc) (serialise ex) u u' ∧ s'.mem = u'.mem ∧
+        ∀ r, (∀ s0, getUnused used = .ok s0 → r ≠ s0) → u'.regs r = u.regs r := by
+    intro h0 hx
+    have htr : A.transfer (movPhi true) i0 i1 u.mem.2 = some q' := by
+      rcases hdir with ⟨_, h⟩ | ⟨hn, _, _⟩
+      · rw [← hmem]; exact h
+      · exact absurd h0 hn
+    have E : Env rmEC (fun k => if k = 0 then i0 else i1) u.regs r0 r1 r0 := by
+      refine ⟨?_, ?_, ?_, ?_⟩
+      · intro k hk'; simp only [rmEC, Option.some.injEq] at hk'; subst hk'; simpa using hq0'
+      · intro k hk'; simp only [rmEC, Option.some.injEq] at hk'; subst hk'; simpa using hq1'
+      · intro k hk'; simp [rmEC] at hk'
+      · intro top k hk'; cases top <;> simp [rmEC] at hk' <;> simp
+    have hrun := mov_sound A hA Mc true rmEC tEC (hlt rmEC (Or.inl rfl)) g r0 r1 r0 ex hx
+      (fun k => if k = 0 then i0 else i1) (hinj01 i0 i1 hne) u.regs E u.mem.1 u.mem.2 q'
+      (by simpa [movDir] using htr)
+    exact ⟨_, hrun, by rw [hs', hmem], fun _ _ => rfl⟩
+  unfold expandInstr at hex
+  simp only [hg1, Bool.false_eq_true, ↓reduceIte, hg2] at hex
+  unfold expandGate2 at hex
+  rw [hops] at hex
+  simp only at hex
+  have hnc : (info.tag == "cnot") = false := by rw [htag]; decide
+  have hnp : (info.tag == "cphase") = false := by rw [htag]; decide
+  have hmv : (info.tag == "mov") = true := by rw [htag]; decide
+  cases hl0 : rv.lookup r0 with
+  | none =>
+    rw [hl0] at hex
+    simp only [hmv, ↓reduceIte] at hex
+    rcases hall hg2 with h | ⟨_, r0', rest, hops', h0⟩
+    · have := h r0 hr0; rw [hl0] at this; cases this
+    · rw [hops] at hops'
+      simp only [List.cons.injEq, Operand.reg.injEq] at hops'
+      rw [← hops'.1] at h0
+      have : (0 : Int) = (i0 : Int) := readQ_of_regs h0 hq0
+      exact caseEC (by omega) hex
+  | some v0 =>
+    cases hl1 : rv.lookup r1 with
+    | none =>
+      rw [hl0, hl1] at hex
+      simp only [hmv, ↓reduceIte] at hex
+      rcases hall hg2 with h | ⟨_, r0', rest, hops', h0⟩
+      · have := h r1 hr1; rw [hl1] at this; cases this
+      · rw [hops] at hops'
+        simp only [List.cons.injEq, Operand.reg.injEq] at hops'
+        rw [← hops'.1] at h0
+        have : (0 : Int) = (i0 : Int) := readQ_of_regs h0 hq0
+        exact caseEC (by omega) hex
+    | some v1 =>
+      rw [hl0, hl1] at hex
+      have hv0e : v0 = (i0 : Int) := readQ_of_regs (hknow r0 hr0 v0 hl0) hq0
+      have hv1e : v1 = (i1 : Int) := readQ_of_regs (hknow r1 hr1 v1 hl1) hq1
+      have hvne : (v0 == v1) = false := by
+        simp only [beq_eq_false_iff_ne, ne_eq, hv0e, hv1e]; omega
+      simp only [hvne, Bool.false_eq_true, ↓reduceIte, hnc, hnp, hmv] at hex
+      by_cases hA0 : (v0 == 0 && v1 != 0) = true
+      · simp only [hA0, ↓reduceIte] at hex
+        have : v0 = 0 := by
+          simp only [Bool.and_eq_true, beq_iff_eq] at hA0; exact hA0.1
+        exact caseEC (by omega) hex
+      · simp only [hA0, Bool.false_eq_true, ↓reduceIte] at hex
+        by_cases hB0 : (v0 != 0 && v1 == 0) = true
+        · simp only [hB0, ↓reduceIte] at hex
+          simp only [Bool.and_eq_true, bne_iff_ne, ne_eq, beq_iff_eq] at hB0
+          have hi0 : i0 ≠ 0 := by omega
+          have hi1 : i1 = 0 := by omega
+          have htr : A.transfer (movPhi false) i0 i1 u.mem.2 = some q' := by
+            rcases hdir with ⟨h, _⟩ | ⟨_, _, h⟩
+            · exact absurd h hi0
+            · rw [← hmem]; exact h
+          have E : Env rmCE (fun k => if k = 0 then i1 else i0) u.regs r0 r1 r0 := by
+            refine ⟨?_, ?_, ?_, ?_⟩
+            · intro k hk'; simp only [rmCE, Option.some.injEq] at hk'; subst hk'; simpa using hq0'
+            · intro k hk'; simp only [rmCE, Option.some.injEq] at hk'; subst hk'; simpa using hq1'
+            · intro k hk'; simp [rmCE] at hk'
+            · intro top k hk'; cases top <;> simp [rmCE] at hk' <;> simp
+          have hrun := mov_sound A hA Mc false rmCE tCE (hlt rmCE (Or.inr rfl)) g r0 r1 r0 ex hex
+            (fun k => if k = 0 then i1 else i0) (hinj01 i1 i0 (fun e => hne e.symm)) u.regs E u.mem.1 u.mem.2 q'
+            (by simpa [movDir] using htr)
+          exact ⟨_, hrun, by rw [hs', hmem], fun _ _ => rfl⟩
+        · simp only [hB0, Bool.false_eq_true, ↓reduceIte] at hex
+          cases hex
+
 theorem expandSound_of_C07 {C Q : Type} (A : QAction Q) (hA : QLawful A) (Mc : Sem (C × Q)) (cfg : Cfg)
     (hMc : SemLocal Mc cfg) (hTies : AllTies cfg = true) (hC : ClsTie cfg = true) :
     ExpandSound (MQ A Mc) cfg := by
@@ -32,14 +204,13 @@ theorem expandSound_of_C07 {C Q : Type} (A : QAction Q) (hA : QLawful A) (Mc : S
   have hct := List.all_eq_true.1 hC'.1 info hmemI
   simp only [Bool.and_eq_true, Bool.or_eq_true, Bool.not_eq_eq_eq_not, Bool.not_true, beq_iff_eq, hcls] at hct
   obtain ⟨⟨⟨⟨_, c2⟩, _⟩, c4⟩, c5⟩ := hct
-  -- the vanilla instruction is not `mov` (it has no semantics here)
-  have hnm : ¬ g.cls = movCls := by
-    intro e
-    simp [MQ, e] at he
+  -- `mov` is the transfer: its own lemma
+  by_cases hnm : g.cls = movCls
+  · exact expandSound_mov A hA Mc cfg hTies hC g info rv used ex s u s' hi hg hex hknow hall hmem hregs he hnm
   have hTies' := hTies
   unfold AllTies at hTies'
   simp only [Bool.and_eq_true] at hTies'
-  obtain ⟨⟨⟨⟨⟨⟨⟨tFix, tRot⟩, tCnotEC⟩, tCnotCE⟩, tCnotCC⟩, tCphEC⟩, tCphCE⟩, tCphCC⟩ := hTies'
+  obtain ⟨⟨⟨⟨⟨⟨⟨⟨⟨tFix, tRot⟩, tCnotEC⟩, tCnotCE⟩, tCnotCC⟩, tCphEC⟩, tCphCE⟩, tCphCC⟩, _⟩, _⟩ := hTies'
   unfold infoGate at hg
   unfold expandInstr at hex
   by_cases hg1 : info.gate1 = true
@@ -112,8 +283,12 @@ theorem expandSound_of_C07 {C Q : Type} (A : QAction Q) (hA : QLawful A) (Mc : S
     have hr1 : r1 ∈ topRegs g := by simp [topRegs, hops, opReg?]
     have hq0' : readQ u.regs r0 = some i0 := by simp only [readQ, ← hregs r0 hr0]; exact hq0
     have hq1' : readQ u.regs r1 = some i1 := by simp only [readQ, ← hregs r1 hr1]; exact hq1
-    obtain ⟨v0, hv0⟩ := Option.isSome_iff_exists.1 (hall hg2 r0 hr0)
-    obtain ⟨v1, hv1⟩ := Option.isSome_iff_exists.1 (hall hg2 r1 hr1)
+    have hallk : ∀ r ∈ topRegs g, (rv.lookup r).isSome = true := by
+      rcases hall hg2 with h | ⟨ht, _⟩
+      · exact h
+      · rcases hgn with ⟨htag, _⟩ | ⟨htag, _⟩ <;> (rw [htag] at ht; exact absurd ht (by decide))
+    obtain ⟨v0, hv0⟩ := Option.isSome_iff_exists.1 (hallk r0 hr0)
+    obtain ⟨v1, hv1⟩ := Option.isSome_iff_exists.1 (hallk r1 hr1)
     have hv0e : v0 = (i0 : Int) := readQ_of_regs (hknow r0 hr0 v0 hv0) hq0
     have hv1e : v1 = (i1 : Int) := readQ_of_regs (hknow r1 hr1 v1 hv1) hq1
     unfold expandGate2 at hex
@@ -311,7 +486,9 @@ theorem semLocal_MQ {C Q : Type} (A : QAction Q) (Mc : Sem (C × Q)) (cfg : Cfg)
   constructor
   · intro i s s' r h hnw
     by_cases hm : i.cls = movCls
-    · simp [MQ, hm] at h
+    · simp only [MQ, hm, beq_self_eq_true, ↓reduceIte] at h
+      obtain ⟨_, _, _, _, _, _, _, _, _, _, hs'⟩ := movExec_some h
+      rw [hs']
     · cases hg : gnameOf i.cls with
       | some gn =>
         obtain ⟨gi, _, hs'⟩ := mq_exec_gate hg h
@@ -325,7 +502,23 @@ theorem semLocal_MQ {C Q : Type} (A : QAction Q) (Mc : Sem (C × Q)) (cfg : Cfg)
     exact hMc.setSem i r v s hs
   · intro i s u s' hmem hregs h
     by_cases hm : i.cls = movCls
-    · simp [MQ, hm] at h
+    · simp only [MQ, hm, beq_self_eq_true, ↓reduceIte] at h ⊢
+      obtain ⟨r0, r1, a, b, q', hops, hq0, hq1, hne, hdir, hs'⟩ := movExec_some h
+      have h0 : s.regs r0 = u.regs r0 := hregs r0 (by simp [regsOf, hops, regsOfOperand])
+      have h1 : s.regs r1 = u.regs r1 := hregs r1 (by simp [regsOf, hops, regsOfOperand])
+      have hq0' : readQ u.regs r0 = some a := by simp only [readQ, ← h0]; exact hq0
+      have hq1' : readQ u.regs r1 = some b := by simp only [readQ, ← h1]; exact hq1
+      refine ⟨⟨u.regs, (u.mem.1, q')⟩, ?_, by rw [hs', hmem], ?_⟩
+      · rcases hdir with ⟨ha, ht⟩ | ⟨ha, hb, ht⟩
+        · rw [hmem] at ht
+          subst ha
+          simp only [movExec, hops, hq0', hq1', hne, ↓reduceIte, ht, Option.map_some]
+        · rw [hmem] at ht
+          subst hb
+          simp only [movExec, hops, hq0', hq1', hne, ↓reduceIte, ha, ht, Option.map_some]
+      · intro r hr
+        rw [hs']
+        exact hregs r (writesOf_sub_regsOf cfg i r hr)
     · cases hg : gnameOf i.cls with
       | some gn =>
         obtain ⟨gi, hgi, hs'⟩ := mq_exec_gate hg h
